@@ -20,6 +20,7 @@ type GCall struct {
 	UID     int  `json:"uid"`
 	Natives int  `json:"natives"` // bit 0 InvokableRun, bit 1 StreamableRun
 	Fails   bool `json:"fails,omitempty"`
+	Intr    int  `json:"intr,omitempty"` // the first Intr executions return compose.InterruptAndRerun
 	DelayUs int  `json:"delay,omitempty"`
 	Chunks  int  `json:"chunks,omitempty"`
 }
